@@ -72,6 +72,10 @@ func (c *Ctx) byteRootKinds(v ssa.Value, self *types.Var) map[string][]string {
 		case "(rcproxy/core/codec.Error).Bytes", "(rcproxy/core/codec.Status).Bytes", "(rcproxy/core/codec.Error).String", "(rcproxy/core/codec.Status).String":
 			return call.Call.Args
 		}
+		// a pure module helper (e.g. an extracted "append this encoded" function): its result is made of its arguments
+		if f := call.Call.StaticCallee(); f != nil && p.inlinable(f) && p.isPure(f, 0) {
+			return call.Call.Args
+		}
 		return nil
 	})
 	for _, r := range roots {
